@@ -29,6 +29,38 @@ pub enum Op {
     HotEdit,
     /// delete the case's hot file if it exists
     HotDelete,
+    /// (dir, slot, size class): write a large file of pseudo-random content (sizes around
+    /// the I/O buffer boundaries 64 KiB and 2 MiB, up to 5 MiB)
+    BigWrite(u16, u16, u16),
+    /// change only the last bytes of a file (content it never had), keeping the head
+    TailEdit(u16),
+    /// the same for the case's hot file
+    HotTailEdit,
+}
+
+pub const BIG_SIZES: [usize; 9] = [
+    65_535,
+    65_536,
+    65_537,
+    300_000,
+    1 << 20,
+    (2 << 20) - 1,
+    2 << 20,
+    (2 << 20) + 1,
+    5 << 20,
+];
+
+fn pseudo_random(seed: u64, len: usize) -> Vec<u8> {
+    let mut v = Vec::with_capacity(len + 8);
+    let mut x = seed | 1;
+    while v.len() < len {
+        x ^= x << 13;
+        x ^= x >> 7;
+        x ^= x << 17;
+        v.extend_from_slice(&x.to_le_bytes());
+    }
+    v.truncate(len);
+    v
 }
 
 pub const HOT: [&str; 6] = ["one/f1.txt", "two/café.txt", "other dir/f 2.txt", "three/sub/g3.txt", "one/deep/h-4.c", "i_5"];
@@ -74,6 +106,8 @@ pub struct Hist {
     pub deleted: bool,
     pub odd_name: bool,
     pub hot: String,
+    pub big: bool,
+    pub tail_edit: bool,
 }
 
 fn is_sentinel(p: &str) -> bool {
@@ -103,6 +137,8 @@ impl Hist {
             deleted: false,
             odd_name: false,
             hot: HOT[0].to_string(),
+            big: false,
+            tail_edit: false,
         };
         // initial content: whatever install_config wrote plus a few ordinary files
         for p in HOT {
@@ -319,6 +355,50 @@ impl Hist {
                 self.work.remove(&p);
                 self.deleted = true;
                 format!("delete {:?}", p)
+            }
+            Op::BigWrite(d, slot, size) => {
+                let dir = DIRS[pick(*d, DIRS.len())];
+                let name = format!("big-{}.bin", pick(*slot, 3));
+                let p = if dir.is_empty() { name } else { format!("{}/{}", dir, name) };
+                self.counter += 1;
+                let c = pseudo_random(self.counter.wrapping_mul(0x9E37_79B9), BIG_SIZES[pick(*size, BIG_SIZES.len())]);
+                self.env.write_file(&p, &c);
+                let len = c.len();
+                self.work.insert(p.clone(), c);
+                self.big = true;
+                format!("write {} bytes to {:?}", len, p)
+            }
+            Op::TailEdit(_) | Op::HotTailEdit => {
+                let p = match op {
+                    Op::HotTailEdit => {
+                        if !self.work.contains_key(&self.hot) {
+                            return Ok("noop".into());
+                        }
+                        self.hot.clone()
+                    }
+                    Op::TailEdit(f) => {
+                        // prefer large files
+                        let mut e: Vec<String> = self.editable().into_iter().filter(|p| self.work[p].len() > 60_000).collect();
+                        if e.is_empty() {
+                            e = self.editable();
+                        }
+                        if e.is_empty() {
+                            return Ok("noop".into());
+                        }
+                        e[pick(*f, e.len())].clone()
+                    }
+                    _ => unreachable!(),
+                };
+                self.counter += 1;
+                let mut c = self.work[&p].clone();
+                let tail = format!("<tail edit #{}>\n", self.counter).into_bytes();
+                let keep = c.len().saturating_sub(tail.len());
+                c.truncate(keep);
+                c.extend_from_slice(&tail);
+                self.env.write_file(&p, &c);
+                self.work.insert(p.clone(), c);
+                self.tail_edit = true;
+                format!("edit {:?}", p)
             }
             Op::CreateIgnored(k) => {
                 let p = IGNORED[pick(*k, IGNORED.len())].to_string();
